@@ -38,6 +38,19 @@ Oracle    with end = e (None: ledger end), period = d <= date < end, from the fu
                 the fixed order, whatever the expression;  BALANCES with F == per-account sums of the
                 clause-only SELECT rows satisfying F;
           (vi)  d > e: compile raises beanquery.CompilationError for all four kinds.
+Sub-query (vii) the clauses of a FROM apply to THAT FROM only (the differential the property suggests: a
+          statement whose IN sub-query is replaced by the literal list of the values the sub-query returns
+          when run on its own must return the same rows).  For EVERY clause configuration above (the one
+          without any clause included) x outer kind in {SELECT ... WHERE date IN (SELECT date FROM <inner>),
+          BALANCES ... WHERE account IN (SELECT account FROM <inner>)} x every inner FROM of the alphabet
+          {plain filter `date >= D1`; OPEN ON m; CLOSE ON m; CLEAR  (m = the middle enumerated date of the
+          ledger); thorough adds dateless CLOSE and OPEN ON m CLOSE ON m2 CLEAR}: the inner statement is
+          executed ALONE on a fresh connection (once per ledger) -> value set V; the outer statement must
+          return exactly the rows of its own clause-only result (checked by (i)-(iv)) whose date / account
+          is in V (BALANCES: the per-account sums of those rows; V empty: no row).  A sub-query without
+          clauses sees the full ledger, one with some clauses gets exactly those, and the enclosing
+          statement keeps its own clauses.  Sub-queries WITHOUT a FROM clause are not enumerated (which
+          table they read is not decided by the property).
 History   the order of statements on ONE connection is part of the exploration: every statement above is
           executed (a) on a brand-new connection (the reference results, checked by (i)-(vi)) and (b) on
           a long-lived connection per ledger on which statements WITHOUT FROM clause (SELECT over
@@ -166,6 +179,7 @@ class Ledger:
         ds = sorted({e.date for e in entries})
         self.dates = sorted({BEFORE, AFTER} | set(ds) | {d + ONE for d in ds})
         self.ids = {id(t): None for t in self.txns}
+        self.inner = {}      # (vii): (column, inner FROM name) -> values of the sub-query run alone
 
     def fresh(self):
         """A brand-new connection on the ledger: no statement has been executed on it."""
@@ -418,7 +432,7 @@ def filter_expected(led, kind, fname, base):
     return sums
 
 
-def run_config(led, d, e, clear, stats, results=None):
+def run_config(led, d, e, clear, stats, results=None, thorough=True, only=None):
     """All kinds x filters of one clause configuration, each statement on a FRESH connection
     -> [(fingerprint, message, kind, filter)]; results (optional dict) receives, per (kind, filter),
     ('ok', result) or ('exc', exception class name)."""
@@ -477,6 +491,106 @@ def run_config(led, d, e, clear, stats, results=None):
                     return [(str(r[0]), r[1], (r[2] if kind == 'select' else r[3])) if not hasattr(r, 'date') else (str(r.date), type(r).__name__) for r in x]
                 out.append(('period:filter-order', f'{ctext}: got {brief(got)}, expected the rows of the clause-only result that satisfy '
                             f'the filter: {brief(exp)}', kind, fname))
+    if 'select' in base:
+        out.extend(run_subqueries(led, d, e, clear, base['select'], stats, thorough, only))
+    return out
+
+
+# (vii) IN sub-queries with a FROM of their own: outer kind -> column tested / returned by the sub-query
+SUB_KINDS = {'select': ('date', 0), 'balances': ('account', 3)}     # column name, index in SELECT_COLS rows
+SUB_PREFIX = 'IN-sub:'
+
+
+def inner_froms(led, thorough=True):
+    """name -> ast.From of the sub-query (fresh node objects each call)."""
+    m, m2 = led.dates[len(led.dates) // 2], led.dates[(3 * len(led.dates)) // 4]
+    out = collections.OrderedDict()
+    out[f'date >= {L.DATES[1]}'] = A.From(expression=FILTERS['date>=D1'][0](), open=None, close=None, clear=None)
+    out[f'OPEN ON {m}'] = A.From(expression=None, open=m, close=None, clear=None)
+    out[f'CLOSE ON {m}'] = A.From(expression=None, open=None, close=m, clear=None)
+    out['CLEAR'] = A.From(expression=None, open=None, close=None, clear=True)
+    if thorough:
+        out['CLOSE'] = A.From(expression=None, open=None, close=True, clear=None)
+        out[f'OPEN ON {m} CLOSE ON {m2} CLEAR'] = A.From(expression=None, open=m, close=m2, clear=True)
+    return out
+
+
+def inner_values(led, colname, iname, stats):
+    """Values the sub-query returns when executed alone on a fresh connection (cached per ledger)
+    -> ('ok', frozenset) | ('exc', fingerprint, text)."""
+    key = (colname, iname)
+    if key not in led.inner:
+        stats['statements'] += 1
+        stats['subquery_inner_alone'] += 1
+        try:
+            rows = led.fresh().execute(select([(col(colname), colname)], from_=inner_froms(led)[iname])).fetchall()
+            led.inner[key] = ('ok', frozenset(r[0] for r in rows))
+        except Exception as x:
+            led.inner[key] = ('exc', crash_fingerprint(x), f'{type(x).__name__}: {x}')
+    return led.inner[key]
+
+
+def sub_statement(led, kind, d, e, clear, iname):
+    colname = SUB_KINDS[kind][0]
+    where = A.In(col(colname), select([(col(colname), colname)], from_=inner_froms(led)[iname]))
+    fr = from_clause('none', d, e, clear)
+    if kind == 'select':
+        return select([(col(c), c) for c in SELECT_COLS[:5]], from_=fr, where=where)
+    return A.Balances(None, fr, where)
+
+
+def run_subqueries(led, d, e, clear, base_select, stats, thorough=True, only=None):
+    """(vii) -> [(fingerprint, message, kind, SUB_PREFIX + inner name)]."""
+    out = []
+    outer = clause_text(d, e, clear)
+    outer = '' if outer == '(no FROM)' else outer + ' '
+    for kind, (colname, idx) in SUB_KINDS.items():
+        for iname in inner_froms(led, thorough):
+            tag = SUB_PREFIX + iname
+            if only is not None and only != (kind, tag):
+                continue
+            ctext = f'{kind.upper()} {outer}WHERE {colname} IN (SELECT {colname} FROM {iname})'
+            alone = inner_values(led, colname, iname, stats)
+            if alone[0] != 'ok':
+                out.append((f'crash:{alone[1]}', f'SELECT {colname} FROM {iname}: {alone[2]}', kind, tag))
+                continue
+            values = alone[1]
+            stats['statements'] += 1
+            stats['subquery_statements'] += 1
+            try:
+                result = led.fresh().execute(sub_statement(led, kind, d, e, clear, iname)).fetchall()
+            except Exception as x:
+                out.append((f'crash:{crash_fingerprint(x)}', f'{ctext}: {type(x).__name__}: {x}', kind, tag))
+                stats['crashes'] += 1
+                continue
+            stats['executed'] += 1
+            stats['result_rows'] += len(result)
+            keep = [r for r in base_select if r[idx] in values]
+            if 0 < len(keep) < len(base_select):
+                stats['subquery_cases_cutting_rows'] += 1
+            if kind == 'select':
+                exp = [tuple(r[:5]) for r in keep]
+                got = [tuple(r) for r in result]
+                same = got == exp
+                stats['rows_compared'] += len(exp)
+                shown = lambda rows: [(str(r[0]), r[1], r[3], str(r[4])) for r in rows[:12]]
+            else:
+                exp = collections.defaultdict(Inv)
+                for r in keep:
+                    exp[r[3]].add_position(r[4])
+                try:
+                    got = account_sums('balances', result)
+                    accs = sorted(set(got) | set(exp))
+                    same = all(got.get(a, Inv()) == exp.get(a, Inv()) for a in accs)
+                except Exception as x:
+                    out.append(('subquery:from-clauses-not-its-own', f'{ctext}: malformed result {result!r:.200} ({type(x).__name__})', kind, tag))
+                    continue
+                stats['rows_compared'] += len(accs)
+                shown = lambda sums: {a: str(v) for a, v in sorted(sums.items()) if not v.is_empty()}
+            if not same:
+                out.append(('subquery:from-clauses-not-its-own',
+                            f'{ctext}: got {shown(got)}; the sub-query alone returns {sorted(map(str, values))}, the rows of '
+                            f'{kind.upper()} {outer.strip() or "(no FROM)"} whose {colname} is among these are {shown(exp)}', kind, tag))
     return out
 
 
@@ -623,19 +737,19 @@ def replay(case):
         if case.get('prev'):
             pd, pe, pc = unjson(case['prev'][0]), unjson(case['prev'][1]), case['prev'][2]
             res = {}
-            run_config(led, pd, pe, pc, Stats(), res)
+            run_config(led, pd, pe, pc, Stats(), res, only=('', ''))
             warm.follow(pd, pe, pc, res, Stats())
         res = {}
-        run_config(led, d, e, case['clear'], Stats(), res)
+        run_config(led, d, e, case['clear'], Stats(), res, only=('', ''))
         out = [o for o in warm.follow(d, e, case['clear'], res, stats) if o[2] == case['kind'] and o[3] == case['filter']]
     elif case.get('reject'):
         out = run_reject(led, d, e, case['clear'], case['kind'], case['filter'], stats)
     else:
-        out = [o for o in run_config(led, d, e, case['clear'], stats) if o[2] == case['kind'] and o[3] == case['filter']]
+        out = [o for o in run_config(led, d, e, case['clear'], stats, only=(case['kind'], case['filter'])) if o[2] == case['kind'] and o[3] == case['filter']]
     return [Violation(fp, f'ledger {list(led.seq)}: {msg}', case) for fp, msg, kind, fname in out]
 
 
-def shard(shard_i, nshards, seqs, seed):
+def shard(shard_i, nshards, seqs, seed, thorough=False):
     install_parse_memo()
     acc = Acc()
     work = 0
@@ -656,7 +770,7 @@ def shard(shard_i, nshards, seqs, seed):
             acc.count('configurations')
             acc.add('clause_shapes', (d is not None, 'dateless' if e is True else ('date' if e is not None else 'absent'), clear))
             results = {}
-            for fp, msg, kind, fname in run_config(led, d, e, clear, stats, results):
+            for fp, msg, kind, fname in run_config(led, d, e, clear, stats, results, thorough):
                 acc.violation(fp, f'ledger {list(seq)}: {msg}', mkcase(led, d, e, clear, kind, fname))
             prev = warm.prev
             for fp, msg, kind, fname in warm.follow(d, e, clear, results, stats):
@@ -723,7 +837,7 @@ def run(ctx):
     install_parse_memo()
     count = ctx.pick(20, 300)
     seqs, pool, unbookable = choose_ledgers(count, ctx.seed)
-    acc = run_shards(shard, ctx.jobs, seqs, ctx.seed)
+    acc = run_shards(shard, ctx.jobs, seqs, ctx.seed, bool(ctx.thorough))
     c = acc.n
     ndates = sorted({len(Ledger(s, ctx.seed).dates) for s in seqs[:50]})
     cov = {
@@ -737,7 +851,8 @@ def run(ctx):
                 'plus filter cases where the filter keeps some but not all rows of the clause-only result (both counted)',
         'exhaustive': True,
         'bound': f'{len(seqs)} ledgers (of {pool} non-empty candidate sequences, n <= 4; {unbookable} unbookable candidates skipped while choosing) x all clause configurations over every entry date, '
-                 f'the day after, before and after the span ({ndates} dates per ledger) x {len(FILTERS)} filters x {len(KINDS)} kinds; plus all d > e',
+                 f'the day after, before and after the span ({ndates} dates per ledger) x {len(FILTERS)} filters x {len(KINDS)} kinds; plus all d > e; '
+                 f'plus every clause configuration x {{SELECT WHERE date IN, BALANCES WHERE account IN}} x {4 + 2 * bool(ctx.thorough)} sub-query FROM clauses (m, m2 = the dates at 1/2, 3/4 of the enumerated dates)',
         'ledgers': len(seqs),
         'ledgers_skipped_unbookable_while_choosing': unbookable,
         'clause_configurations': c['configurations'],
@@ -760,6 +875,10 @@ def run(ctx):
         'closed_reports_where_equity_carries_nonzero': c['closed_reports_with_nonzero_equity'],
         'filter_cases_cutting_rows': c['filters_that_cut'],
         'statements_on_the_long_lived_connection': c['history_statements'],
+        'in_subquery_statements': c['subquery_statements'],
+        'in_subquery_inner_statements_run_alone': c['subquery_inner_alone'],
+        'in_subquery_cases_keeping_some_but_not_all_rows': c['subquery_cases_cutting_rows'],
+        'in_subquery_inner_froms': list(inner_froms(Ledger(seqs[0], ctx.seed), bool(ctx.thorough))) if seqs else [],
         'close_before_open_cases': c['reject_cases'],
         'close_before_open_rejected': c['rejected'],
         'violating_cases': c['violating_cases'],
@@ -771,6 +890,8 @@ def run(ctx):
         'Equity accounts have no per-account oracle; their role is checked through every returned transaction balancing',
         'PRINT: only Transaction directives are constrained by (i)-(iv); JOURNAL balance column not compared; BALANCES missing account == empty',
         'beanquery.parser.parse memoised by text during the check (transform_balances/transform_journal re-parse a fixed template on every compile)',
+        'IN sub-queries: the sub-query run alone as a top-level statement on a fresh connection defines the value list (differential stated by the property); '
+        'membership is Python `in` on dates / account names (never NULL here); sub-queries without a FROM clause are not enumerated',
         'results on the long-lived connection are compared by value (==) with the results on fresh connections',
         'beancount loader, Inventory, interpolate, printer are trusted; the reference never calls beancount.ops.summarize',
     ])
